@@ -103,7 +103,12 @@ def yaml_load(stream):
 def json_load(value):
     import json
 
-    return json.loads(value)
+    try:
+        return json.loads(value)
+    except ValueError as ex:  # not a JSONDecodeError e.g. for an integer literal beyond the int conversion limit
+        if isinstance(ex, json.JSONDecodeError):
+            raise
+        raise json.JSONDecodeError(str(ex), value, 0) from ex
 
 
 def toml_load(value):
